@@ -527,6 +527,8 @@ c.exsures(SystemExit, "C13._print_diff.failure_exits_1", lambda a, exc, cx: v_eq
 c.exsures(version.PatternError)
 c.exsures(_re.error)
 c.exsures(ValueError)
+c.exsures(KeyError)
+c.exsures(IndexError)
 c.trusted = "callers' view; the diff path itself is C13 (contracts/diff.py)"
 
 
